@@ -159,6 +159,12 @@ where
     if reader.buf_len() < offset + 8 {
         return ascii_digits_multi_cold(reader, offset);
     }
+    #[cfg(flussab_verif)]
+    crate::verif::emit(crate::verif::Event::Fp {
+        func: "ascii_digits_multi",
+        offset,
+        buf_len: reader.buf_len(),
+    });
     let word = unsafe { u64::from_le_bytes(*(reader.buf_ptr().add(offset) as *const [u8; 8])) };
 
     let (value, matching_digits) = swar_ascii_digits_u64_le(word);
@@ -198,6 +204,12 @@ where
     if reader.buf_len() < offset + 8 {
         return signed_ascii_digits_multi_cold(reader, offset);
     }
+    #[cfg(flussab_verif)]
+    crate::verif::emit(crate::verif::Event::Fp {
+        func: "signed_ascii_digits_multi",
+        offset,
+        buf_len: reader.buf_len(),
+    });
     let word = unsafe { u64::from_le_bytes(*(reader.buf_ptr().add(offset) as *const [u8; 8])) };
 
     if word & 0xff == b'-' as u64 {
@@ -422,6 +434,11 @@ impl<'a> LineReader<'a> {
     pub fn line_at_offset(&mut self, offset: usize) {
         self.line += 1;
         self.line_start = self.reader.position() + offset;
+        #[cfg(flussab_verif)]
+        crate::verif::emit(crate::verif::Event::Ln {
+            line: self.line,
+            line_start: self.line_start,
+        });
     }
 
     /// Generate a syntax error at the current reader position.
@@ -451,6 +468,14 @@ impl<'a> LineReader<'a> {
     where
         E: From<io::Error> + From<SyntaxError>,
     {
+        #[cfg(flussab_verif)]
+        crate::verif::emit(crate::verif::Event::Gu {
+            position,
+            io: self.reader.io_error().is_some(),
+            line: self.line,
+            line_start: self.line_start,
+            column: position.wrapping_sub(self.line_start).wrapping_add(1),
+        });
         if let Err(err) = self.reader.check_io_error() {
             return err.into();
         }
